@@ -130,6 +130,13 @@ pub fn child(seed: u64) -> i32 {
     if with_prefix {
         b = b.set_global_prefix("pfx");
     }
+    if seed / 48 % 2 == 1 {
+        // a small payload limit makes histogram value lists split over several payloads
+        b = match b.with_maximum_payload_length(96) {
+            Ok(b) => b,
+            Err(e) => return fail("builder-rejects-payload-length", format!("{}", e)),
+        };
+    }
     let rec = match b.build() {
         Ok(r) => Arc::new(r),
         Err(e) => return fail("exporter-does-not-build", format!("{}", e)),
